@@ -56,9 +56,9 @@ CLAIMED = {
    "DESIGN.md section 4 C18"),
 
  "C05": ("exploration",
-   "deterministic simulation with storage-corruption faults: seeded base documents (high-level packages and object soups) on a simulated disk, 0..4 injected faults (bit flips, overwrites, zeroed sectors, misdirected/duplicated blocks, torn tail, token-level structure edits, reference rewiring), full read-side walk inside a testing/synctest bubble",
-   "Seeded search over corrupted images x reader modes x read personalities; oracles: no panic, termination (step caps + confirmed wall-clock watchdog), TotalAlloc proxy bound, and exact detection of goroutines left behind when the walk returns (synctest bubble).",
-   "Memory is bounded by a coarse measured proxy; CPU-only hangs rely on the watchdog; the walker covers the reading APIs named in the property (NewReader, SequentialScan/MakeReader, Get, DecodeStream, pagetree, page.Decode, extract.Font, GlyphNameMapping, reader.ProcessPage, outline, name tree).",
+   "deterministic simulation with storage-corruption faults: seeded base documents (high-level packages and object soups) on a simulated disk, 0..4 injected faults (bit flips, overwrites, zeroed sectors, misdirected/duplicated blocks, torn tail, token-level structure edits, reference rewiring, prepended bytes, /Prev rewiring) on library-written documents, revision histories from the independent serialiser and hand-made hostile structures (diamond-shaped trees, hostile CMaps), full read-side walk inside a testing/synctest bubble, walk time measured by a deterministic work counter inserted into every package of the repository by a build overlay",
+   "Seeded search over corrupted images x reader modes x read personalities; oracles: no panic, simulated time outside the stream decoders <= 24Mi*(1+pages+fonts) + 4096*(image length + bytes drained), termination (confirmed wall-clock watchdog as backstop), TotalAlloc proxy bound, and exact detection of goroutines left behind when the walk returns (synctest bubble).",
+   "Memory is bounded by a coarse measured proxy; the time bound is calibrated on the unchanged tree and generous (it excludes blow-ups of orders of magnitude); loops inside one library call that never end rely on the watchdog; the walker covers the reading APIs named in the property (NewReader, SequentialScan/MakeReader, Get, DecodeStream, pagetree, page.Decode, extract.Font, GlyphNameMapping, reader.ProcessPage, outline, name tree).",
    "DESIGN.md section 4 C05"),
 
  "C04": ("exploration",
@@ -110,7 +110,7 @@ def main():
         "setup_cmd": "./setup.sh",
         "hooks": {
             "guard": "verif",
-            "enable": "no hook is committed to /repo: C18's harness is built with `go test -c -overlay` from AST-instrumented copies of the working tree's resource.go, cursor.go, filter.go, font/cmap/predefined.go, font/mapping/mapping.go generated by /verif/bin/instr at check time (scheduler yield points); C08's harness is built the same way with a work counter (one tick per function entry and loop iteration) in the packages under internal/filter/; all other checks drive the unmodified working tree through its public interfaces",
+            "enable": "no hook is committed to /repo: C18's harness is built with `go test -c -overlay` from AST-instrumented copies of the working tree's resource.go, cursor.go, filter.go, font/cmap/predefined.go, font/mapping/mapping.go generated by /verif/bin/instr at check time (scheduler yield points); C08's and C05's harnesses are built the same way with a work counter (one tick per function entry and loop iteration; C08: packages under internal/filter/, C05: every package of the repository); all other checks drive the unmodified working tree through its public interfaces",
             "baseline_off_cmd": "cd /repo && go test -vet=off -count=1 -timeout 25m ./...",
             "source_commits": [],
             "add_only": True,
